@@ -746,8 +746,8 @@ type c03state struct {
 	stopped bool
 	// the types the pipe router has a processor for (nil = all of c03types)
 	procs map[network.MessageTypeID]bool
-	// identities of the harness types registered by `reg` operations of this case
-	registered map[int]bool
+	// identities of the harness types registered by `reg` operations of this case, in order
+	regOrder []int
 }
 
 func (st *c03state) tag(s string) { st.tags[s] = true }
